@@ -181,8 +181,10 @@ func (r *CPUSuppress) applyBESuppressCPUSet(beCPUSet []int32, oldCPUSet []int32)
 		return fmt.Errorf("failed to get kubelet cpu manager policy, %w", err)
 	}
 	if kubeletPolicy.Policy == apiext.KubeletCPUManagerPolicyStatic {
-		r.recoverCPUSetIfNeed(koordletutil.PodCgroupPathRelativeDepth)
-		err = r.applyCPUSetWithStaticPolicy(beCPUSet)
+		// the containers are written after the upper cgroups are loosened and before they are tightened
+		err = r.recoverCPUSet(koordletutil.PodCgroupPathRelativeDepth, func() error {
+			return r.applyCPUSetWithStaticPolicy(beCPUSet)
+		})
 	} else {
 		err = r.applyCPUSetWithNonePolicy(beCPUSet, oldCPUSet)
 	}
@@ -507,25 +509,56 @@ func (r *CPUSuppress) recoverCPUSetForBECPUManager() {
 }
 
 func (r *CPUSuppress) recoverCPUSetIfNeed(maxDepth int) {
+	_ = r.recoverCPUSet(maxDepth, nil)
+}
+
+// recoverCPUSet recovers the cpuset of the BE cgroups whose depth is no more than maxDepth to all cpus BE can use.
+// The cpuset to recover does not necessarily cover the current one (e.g. some cpus have become exclusive for an LSE pod),
+// so like applyCPUSetWithNonePolicy it avoids cgroup conflicts by two steps:
+//  1. temporarily write with a union of the current cpuset and the cpuset to recover from upper to lower
+//  2. write with the cpuset to recover from lower to upper
+//
+// applyLower, if not nil, writes the cgroups deeper than maxDepth; it is invoked between the two steps. When it fails, the
+// upper cgroups are kept loosened since the lower ones may still use the cpus out of the cpuset to recover.
+func (r *CPUSuppress) recoverCPUSet(maxDepth int, applyLower func() error) error {
+	applyLowerIfNeed := func() error {
+		if applyLower == nil {
+			return nil
+		}
+		return applyLower()
+	}
+
 	beCPUSet, err := r.calcBECPUSet()
 	if err != nil {
 		klog.Warningf("get be cpuset failed during recoverCPUSetIfNeed, error %v", err)
-		return
+		return applyLowerIfNeed()
 	} else if beCPUSet == nil {
 		klog.Warningf("got nil be cpuset during recoverCPUSetIfNeed")
-		return
+		return applyLowerIfNeed()
 	}
 
 	cpusetCgroupPaths, err := koordletutil.GetBECPUSetPathsByMaxDepth(maxDepth)
 	if err != nil {
 		klog.Warningf("recover bestEffort cpuset failed, get be cgroup cpuset paths  err: %s", err)
-		return
+		return applyLowerIfNeed()
 	}
 
 	cpusetStr := beCPUSet.String()
-	klog.V(6).Infof("recover bestEffort cpuset, cpuset %v", cpusetStr)
-	r.writeBECgroupsCPUSet(cpusetCgroupPaths, cpusetStr, false)
+	mergedCPUSetStr := cpusetStr
+	rootCgroupParentDir := koordletutil.GetPodQoSRelativePath(corev1.PodQOSBestEffort)
+	if oldCPUSet, err := r.cgroupReader.ReadCPUSet(rootCgroupParentDir); err != nil {
+		klog.V(4).Infof("recover bestEffort cpuset failed to get current best-effort cgroup cpuset, err: %s", err)
+	} else if oldCPUSet != nil {
+		mergedCPUSetStr = oldCPUSet.Union(*beCPUSet).String()
+	}
+	klog.V(6).Infof("recover bestEffort cpuset, cpuset %v, temporarily merged cpuset %v", cpusetStr, mergedCPUSetStr)
+	r.writeBECgroupsCPUSet(cpusetCgroupPaths, mergedCPUSetStr, false)
 	r.suppressPolicyStatuses[string(slov1alpha1.CPUSetPolicy)] = policyRecovered
+	if err = applyLowerIfNeed(); err != nil {
+		return err
+	}
+	r.writeBECgroupsCPUSet(cpusetCgroupPaths, cpusetStr, true)
+	return nil
 }
 
 func (r *CPUSuppress) calcBECPUSet() (*cpuset.CPUSet, error) {
